@@ -283,7 +283,10 @@ func addLineText(p *lineParser) {
 
 	switch k := p.ContainerKind(); {
 	case blockRules[k].acceptsLines:
-		if p.i < len(p.line) && p.line[p.i] == '\t' && p.tabRemaining > 0 && p.tabRemaining < tabStopSize {
+		if p.i < len(p.line) && p.line[p.i] == '\t' && p.tabPartial && p.tabRemaining > 0 {
+			// Only part of the tab was consumed as indentation:
+			// the rest of it becomes spaces.
+			// (A tab that merely starts between tab stops is content and stays a tab.)
 			p.container.inlineChildren = append(p.container.inlineChildren, &Inline{
 				kind:   IndentKind,
 				indent: int(p.tabRemaining),
